@@ -1,5 +1,6 @@
 import Norad.Base.Proto
 import Driver.C11
+import Driver.C12
 /-!
 # Line-protocol driver
 
@@ -12,6 +13,7 @@ open Proto
 def dispatch (inp obs : List String) : Verdict :=
   match inp.head? with
   | some "C11" => Driver.C11.run inp obs
+  | some "C12" => Driver.C12.run inp obs
   | _ => { agree := false, model := "unknown-model" }
 
 partial def loop (h : IO.FS.Stream) (out : IO.FS.Stream) : IO Unit := do
